@@ -4,6 +4,8 @@ from .. import oracles
 
 class C03(Prop):
     pid = "C03"
+    quick = {"seeds": 6000, "wall_cap": 90, "chunk": 16}
+    thorough = {"seeds": 120000, "wall_cap": 1500, "chunk": 32}
     level = "exploration"
     rule = ("one case = one seeded scenario (problem, span of any sign/direction, dt smaller/larger than the span and of either sign, method, dtype, "
             "buffer-cap knob, optional allocator fault) with a history of 1-4 integrate(t) ops; non-trivial = at least one step was recorded; "
